@@ -430,7 +430,7 @@ def gen_solve(r, n, tag=None, tol=False, form=None, left=None, K=None):
     m = 1 if K == "v" else r.choice([1, 2, 3, 5, 17])
     # forms that go through rows / columns of the explicit inverse (r j x y; p q from the right: X e_k = B (A^-1 e_k))
     # are forward stable only: generated on well-conditioned systems, where the 1e-9 residual bound is sound
-    wc = form in "rjpqxylu"
+    wc = form in "rjpqxylcu"   # c from the right = B times rows of the inverse, like l from the left
     if wc and tag == "semi":
         n = min(n, 24)
     s = 0
